@@ -84,7 +84,9 @@ theorem C12_seized_value {p : Portfolio} {c : Supply} {d : Debt} {cover : Rat} {
   have hhalf : a.half = stepHalf p := by rw [ha]
   rw [h.collUsed_eq, h.debtRepaid_eq, Supply.amount_exact, Debt.amount_exact, hcap, hhalf]
   refine ⟨hf.2.2.2.2.2.2.2, hf.2.2.2.2.1, ?_, ?_⟩
-  · intro hc; unfold stepCollUsed stepRepaid; rw [hc]; simp
+  · intro hc
+    refine ⟨by unfold stepCollUsed; rw [hc]; simp, ?_⟩
+    exact step_capped_repaid p (h.wf.sup c h.hc).2.1 (h.wf.deb d h.hd).2 hc
   · intro hc; unfold stepRepaid; rw [hc]
     simp only [Bool.false_eq_true, if_false]
     unfold stepToLiq
